@@ -41,6 +41,47 @@ MAfter(m, n, r)  == LET rest == MRm(m, n) i == MIdx(rest, r)
                     IN SubSeq(rest, 1, i) \o <<MGet(m, n)>> \o SubSeq(rest, i + 1, Len(rest))
 MSort(m)         == SortSeq(m, LAMBDA x, y : x.n < y.n)
 
+\* sort_fields(key=f): "same semantics as for sorted" - a STABLE sort by the caller's key.  A key
+\* function is abstracted to kf : name -> natural (kf[n] is applied, so a sequence indexed by name
+\* rank serves as well: that is what the recorded traces carry).  Entries are decorated with their
+\* position so that the comparison is a strict total order (the result does not depend on the
+\* stability of SortSeq itself).
+MSortBy(m, kf)   == LET dm == [i \in 1..Len(m) |-> [e |-> m[i], i |-> i]]
+                        sd == SortSeq(dm, LAMBDA x, y : \/ kf[x.e.n] < kf[y.e.n]
+                                                       \/ (kf[x.e.n] = kf[y.e.n] /\ x.i < y.i))
+                    IN [i \in 1..Len(m) |-> sd[i].e]
+
+\* Faults of the caller-supplied key function (notes/SIZE_STRESS.md part 5).  The key function
+\* misbehaves for exactly one name fn (NoFault: for none), in one of the modes
+\*   "raise"    f(k) raises the caller's own exception when called for fn,
+\*   "incomp"   f(k) returns for fn a key that cannot be ordered against the others (TypeError
+\*              from the comparison),
+\*   "cmpraise" f(k) returns for fn a key whose comparison raises the caller's own exception.
+\* The fault can only strike when fn is a key of the mapping; with two or more keys it MUST strike
+\* (every key is computed and every element takes part in at least one comparison), the call then
+\* fails with the caller's exception resp. TypeError and - "sorted" semantics: no result, nothing
+\* assigned - the mapping is unchanged.  With fn the ONLY key nothing needs to be compared and an
+\* implementation may or may not call f at all: unspecified (either outcome, the mapping is the
+\* same one-element mapping anyway).
+NoFault    == 0
+KeyVals    == {0, 1}                                   \* a cfg may override this definition
+KeyFns     == [Names -> KeyVals]
+FaultModes == {"raise", "incomp", "cmpraise"}
+SortErr(fm)           == IF fm = "incomp" THEN "TypeError" ELSE "CallerError"
+SortHit(m, fn, fm)    == fn # NoFault /\ MHas(m, fn) /\ Len(m) >= 2
+SortUnspec(m, fn, fm) == fn # NoFault /\ MHas(m, fn) /\ Len(m) = 1
+SortOut(m, kf, fn, fm) == IF SortHit(m, fn, fm) THEN [m |-> m, r |-> SortErr(fm)]
+                          ELSE [m |-> MSortBy(m, kf), r |-> "ok"]
+\* dump(fd) into a file object whose k-th write() raises, parsing from an iterator of lines that
+\* raises at its k-th step: the caller's exception comes out, the mapping is what it was (dump of
+\* an EMPTY mapping may not write at all: unspecified whether the fault is ever met)
+\* the faulted calls are explored with one representative key function (name 2 first, 1 and 3 tie):
+\* when the fault strikes the outcome does not depend on it, when it does not (fn absent) the call
+\* is the fault-free sort by the same keys; the recorded traces draw arbitrary pairs (kf, fn)
+FaultKf == [n \in Names |-> n % 2]
+IOKinds == {"dump", "parse"}
+IOUnspec(m, kind) == kind = "dump" /\ Len(m) = 0
+
 \* outcome of a relative move: [m |-> new mapping, r |-> result]
 \* (item = reference -> ValueError, checked first as the statement says "re-ordering a key
 \*  relative to itself raises ValueError"; a missing item or reference -> KeyError)
@@ -52,6 +93,9 @@ MMove(m, n, f(_, _)) == IF MHas(m, n) THEN [m |-> f(m, n), r |-> "ok"] ELSE [m |
 
 ----------------------------------------------------------------------------
 Edge(op, args) == Emit => PrintT(<<"EDGE", ToJson([from |-> abs, op |-> op, args |-> args, res |-> res', to |-> abs'])>>)
+\* alt: the set of results the binding has to accept (more than {res'} only in an unspecified zone)
+EdgeAlt(op, args, alt) == Emit => PrintT(<<"EDGE", ToJson([from |-> abs, op |-> op, args |-> args, res |-> res',
+                                                            alt |-> alt, to |-> abs'])>>)
 
 Init == abs = <<>> /\ res = "ok"
 
@@ -69,6 +113,12 @@ MoveLast(n)      == Apply(MMove(abs, n, MLast)) /\ Edge("last", <<n>>)
 MoveBefore(n, r) == Apply(MRel(abs, n, r, MBefore)) /\ Edge("before", <<n, r>>)
 MoveAfter(n, r)  == Apply(MRel(abs, n, r, MAfter)) /\ Edge("after", <<n, r>>)
 Sort         == abs' = MSort(abs) /\ res' = "ok" /\ Edge("sort", <<>>)
+SortBy(kf, fn, fm) == /\ Apply(SortOut(abs, kf, fn, fm))
+                      /\ EdgeAlt("sortby", <<kf, fn, fm>>,
+                                 IF SortUnspec(abs, fn, fm) THEN {"ok", SortErr(fm)} ELSE {res'})
+IOFault(kind) == /\ abs' = abs
+                 /\ res' = (IF IOUnspec(abs, kind) THEN "ok" ELSE "CallerError")
+                 /\ EdgeAlt("iofault", <<kind>>, IF IOUnspec(abs, kind) THEN {"ok", "CallerError"} ELSE {res'})
 \* copy() and dump()+parse rebuild the object; the mapping they produce must be the same
 Copy         == abs' = abs /\ res' = "ok" /\ Edge("copy", <<>>)
 DumpParse    == abs' = abs /\ res' = "ok" /\ Edge("dumpparse", <<>>)
@@ -77,6 +127,9 @@ Next == \/ \E n \in Names : \/ \E s \in Spells, v \in Values : Set(n, s, v)
                             \/ Get(n) \/ Has(n) \/ Del(n) \/ MoveFirst(n) \/ MoveLast(n)
                             \/ \E r \in Names : MoveBefore(n, r) \/ MoveAfter(n, r)
         \/ Sort \/ Copy \/ DumpParse
+        \/ \E kf \in KeyFns : SortBy(kf, NoFault, "none")
+        \/ \E fn \in Names, fm \in FaultModes : SortBy(FaultKf, fn, fm)
+        \/ \E kind \in IOKinds : IOFault(kind)
 
 Spec == Init /\ [][Next]_avars
 AbsView == abs        \* res is an output, no action reads it: states are identified by abs
@@ -86,9 +139,18 @@ AbsView == abs        \* res is an output, no action reads it: states are identi
 TypeOK      == /\ \A i \in 1..Len(abs) : abs[i].n \in Names /\ abs[i].s \in Spells /\ abs[i].v \in Values
 NamesUnique == MUnique(abs)
 \* a failing call leaves the mapping unchanged
-ErrAtomic   == [][res' \in {"KeyError", "ValueError"} => abs' = abs]_avars
+ErrAtomic   == [][res' \in {"KeyError", "ValueError", "TypeError", "CallerError"} => abs' = abs]_avars
 \* the spelling of a name never changes while the name stays in the mapping
 SpellingKept == [][\A n \in Names : (MHas(abs, n) /\ MHas(abs', n)) => MGet(abs', n).s = MGet(abs, n).s]_avars
+\* a sort whose key function faults for a present key (two or more keys) fails and changes nothing;
+\* one that does not meet the fault is the plain stable sort: a permutation ordered by key, ties
+\* in their previous order
+SortLaw == \A kf \in KeyFns : LET m == MSortBy(abs, kf) IN
+              /\ Len(m) = Len(abs) /\ \A n \in Names : MHas(abs, n) <=> MHas(m, n)
+              /\ \A i, j \in 1..Len(m) : i < j =>
+                     \/ kf[m[i].n] < kf[m[j].n]
+                     \/ (kf[m[i].n] = kf[m[j].n] /\ MIdx(abs, m[i].n) < MIdx(abs, m[j].n))
+              /\ \A i \in 1..Len(m) : m[i] = MGet(abs, m[i].n)
 \* only Set/Del change the key set or a value; re-ordering is a permutation
 PermutationOnly == [][(Len(abs') = Len(abs)) => \A n \in Names : MHas(abs, n) <=> MHas(abs', n)]_avars
 =============================================================================
